@@ -517,6 +517,53 @@ func workerLoad(hexData string) {
 		}
 	}
 	fmt.Printf("LOADED err=%v count=%d list=%d dup=%q\n", err != nil, repo.Count(), len(list), dup)
+	// life goes on with whatever was loaded: every held address gets a score update (+1000, so the
+	// new scores are separated from every stored one), then the range queries, a Save and a Load
+	// must show exactly the updated scores
+	want := map[string]int32{}
+	for _, p := range list {
+		want[p.Address] = p.Score + 1000
+	}
+	problem := ""
+	for a := range want {
+		if !repo.UpdateScore(ctx, a, 1000) {
+			problem = "UpdateScore refused a held address"
+		}
+	}
+	compare := func(stage string) {
+		for _, q := range [][2]int32{{-1 << 31, -1}, {500, -1}, {-1 << 31, 499}} {
+			got, _ := repo.Get(ctx, q[0], q[1])
+			n := 0
+			for a, sc := range want {
+				if sc >= q[0] && (q[1] == -1 || sc <= q[1]) {
+					n++
+					found := false
+					for _, p := range got {
+						if p.Address == a && p.Score == sc {
+							found = true
+						}
+					}
+					if !found && problem == "" {
+						problem = fmt.Sprintf("%s: Get(%d,%d) does not list %q with its current score %d", stage, q[0], q[1], a, sc)
+					}
+				}
+			}
+			if len(got) != n && problem == "" {
+				problem = fmt.Sprintf("%s: Get(%d,%d) lists %d peers, %d have a score in range", stage, q[0], q[1], len(got), n)
+			}
+		}
+	}
+	compare("after-updates")
+	if err := repo.Save(ctx); err != nil && problem == "" {
+		problem = "Save: " + err.Error()
+	}
+	again := bitcoin_reader.NewPeerRepository(st, "")
+	if err := again.Load(ctx); err != nil && problem == "" {
+		problem = "Load after Save: " + err.Error()
+	}
+	repo = again
+	compare("after-save-and-load")
+	fmt.Printf("CONTINUED problem=%q\n", problem)
 }
 
 func arbitraryContents(c *checker) {
@@ -551,6 +598,17 @@ func arbitraryContents(c *checker) {
 			c.vs = append(c.vs, mc.Violation{Prop: "C20", Clause: "arbitrary-file-duplicate", Fingerprint: "arbitrary-file-duplicate|" + b.name,
 				Detail: fmt.Sprintf("after loading file %q an address is held twice (%q): Count=%d", b.name, dup, count), History: map[string]any{"file": b.name, "hex": hex.EncodeToString(b.data)}})
 			continue
+		}
+		if i := strings.Index(s, "CONTINUED problem="); i >= 0 {
+			var problem string
+			fmt.Sscanf(s[i:], "CONTINUED problem=%q", &problem)
+			c.n++
+			c.cnt["arbitrary_files_continued"]++
+			if problem != "" {
+				c.vs = append(c.vs, mc.Violation{Prop: "C20", Clause: "arbitrary-file-then-updates", Fingerprint: "arbitrary-file-then-updates|" + b.name,
+					Detail: fmt.Sprintf("after loading file %q, updating the score of every held address: %s", b.name, problem), History: map[string]any{"file": b.name, "hex": hex.EncodeToString(b.data)}})
+				continue
+			}
 		}
 		if list < b.minPeers {
 			c.vs = append(c.vs, mc.Violation{Prop: "C20", Clause: "arbitrary-file-lost-peers", Fingerprint: "arbitrary-file-lost-peers|" + b.name,
